@@ -3,6 +3,7 @@ package wrap
 import (
 	"context"
 	"fmt"
+	"io"
 	"reflect"
 
 	"google.golang.org/grpc"
@@ -56,6 +57,10 @@ func (w *wrapper) Invoke(ctx context.Context, method string, args any, reply any
 	if !ok {
 		return ErrMethodNotFound
 	}
+	if err := ctx.Err(); err != nil {
+		// like a real connection, a call on a context that is already done never reaches the server
+		return status.FromContextError(err).Err()
+	}
 
 	ctx, clientServerStream, ss, cs := w.startStream(ctx, method)
 	go func() {
@@ -70,7 +75,8 @@ func (w *wrapper) Invoke(ctx context.Context, method string, args any, reply any
 		clientServerStream.Close(err)
 	}()
 
-	if err := cs.SendMsg(args); err != nil {
+	// io.EOF from SendMsg means the call has ended already, RecvMsg reports why
+	if err := cs.SendMsg(args); err != nil && err != io.EOF {
 		return err
 	}
 	if err := cs.CloseSend(); err != nil {
@@ -99,6 +105,9 @@ func (w *wrapper) NewStream(ctx context.Context, desc *grpc.StreamDesc, method s
 
 	if matched.ServerStreams != desc.ServerStreams || matched.ClientStreams != desc.ClientStreams {
 		return nil, ErrMethodShape
+	}
+	if err := ctx.Err(); err != nil {
+		return nil, status.FromContextError(err).Err()
 	}
 
 	ctx, clientServerStream, ss, cs := w.startStream(ctx, method)
